@@ -68,6 +68,7 @@ pub fn tiler(cfg: TilerCfg) -> Behaviour {
                             choke_done = true;
                             if !io.send(&Msg::Choke).await { return; }
                             pending.clear(); // a choking peer drops what was requested
+                            answered.clear();
                             choking_until = Some(io.log.now_ms() + ms);
                         }
                     }
@@ -80,6 +81,10 @@ pub fn tiler(cfg: TilerCfg) -> Behaviour {
                 Ok(None) => return,
                 Ok(Some(Msg::Request(i, b, l))) => {
                     if choking_until.is_some() { continue; }
+                    // duplicates are only ever re-sent within the current assignment: a stale block
+                    // of an earlier assignment of the same piece could legitimately be accepted as
+                    // the answer to a request that is logged after it, which the oracle cannot see
+                    if b == 0 { answered.clear(); }
                     if io.rng.below(1000) < cfg.withhold { io.log.note(&io.addr, format!("withholding ({},{})", i, b)); continue; }
                     // the first answer of an epoch always waits a little so that the up-front
                     // requests are observable
